@@ -1,4 +1,5 @@
-\* Strain.tla, machine HSpec, quick tier: histories on one grain / DeformationGradientTensor / TensorMap object,
+\* Strain.tla, machine HSpec, quick tier: histories on one grain / DeformationGradientTensor / TensorMap object
+\* (with decorations: carried ref_unitcell objects, touched caches, explicit dzero_unitcell maps, reference cells of other scales),
 \* drawn by `tlc -simulate` (seed = VERIF_SEED); every invariant is checked along each behaviour
 SPECIFICATION HSpec
 CONSTANTS
@@ -13,14 +14,18 @@ CONSTANTS
   HSTRETCHES <- HStretchQ
   HROTS <- HRotsQ
   HU0R <- HU0RAll
-  HLEN = 10
+  HSCALES <- HScalesAll
+  MTOUCHES <- MTouchAll
+  HLEN = 12
   PHASEDICTS <- PhaseDicts
   NVER = 3
-  MLEN = 8
+  MLEN = 9
 INVARIANT HAnswersCurrent
 INVARIANT HPolarOK
+INVARIANT HDecorTracked
 INVARIANT MapExpCurrent
 INVARIANT MapRepairedCurrent
 INVARIANT DzeroByKey
+INVARIANT DzSourceOK
 INVARIANT HEmit
 CHECK_DEADLOCK FALSE
